@@ -1,7 +1,7 @@
 #!/bin/bash
 # usage: eval_seed.sh <seed dir with patch.diff> : applies the patch to a scratch worktree of /repo HEAD, runs all
 # claimed checks (quick) against it and removes the worktree. Prints the properties that raised VIOLATION.
-d=$1
+d=$(readlink -f "$1")
 id=$(basename "$d")
 wt=/tmp/eval_wt_$id
 git -C /repo worktree remove --force $wt >/dev/null 2>&1
